@@ -2,6 +2,7 @@
 # Offline set-up: nothing is built; the specification is parsed and the harness imported.
 cd "$(dirname "$0")" || exit 2
 set -e
+set -o pipefail
 for f in spec/*.tla; do
   m=$(basename "$f" .tla)
   (cd spec && tla-sany "$m.tla" > /tmp/sany.$$.log 2>&1) || { cat /tmp/sany.$$.log; rm -f /tmp/sany.$$.log; echo "SANY failed on $m"; exit 1; }
@@ -10,4 +11,7 @@ done
 rm -f /tmp/sany.$$.log
 /venv/bin/python -c "import sys; sys.path.insert(0, '.'); import harness.cli, harness.gen, harness.drive, harness.tlc, harness.pipeline; import lcm.entry_point"
 mkdir -p out evidence
+# binding self-test: stored good traces are accepted, single corruptions rejected with the expected clause,
+# and the model checker finds the repaired defect D2 when it is put back into the specification
+/venv/bin/python tools/selftest.py | tail -25
 echo "setup ok"
